@@ -107,3 +107,74 @@ impl<'de> Deserialize<'de> for Dyn {
         d.deserialize_any(DynVisitor)
     }
 }
+
+/// Like `Dyn`, but every second entry of a map (records arrive as maps) and every second element of a
+/// sequence is taken as `serde::de::IgnoredAny` - what a Rust type lacking those fields asks for.
+/// `PAR` = 0 skips the even positions (0, 2, ..), 1 the odd ones.  Nothing is kept: only the outcome
+/// and the number of bytes consumed are observed.
+#[derive(Debug, Clone, PartialEq)]
+pub struct DynSkip<const PAR: usize>;
+
+struct SkipVisitor<const PAR: usize>;
+
+impl<'de, const PAR: usize> Visitor<'de> for SkipVisitor<PAR> {
+    type Value = DynSkip<PAR>;
+    fn expecting(&self, f: &mut fmt::Formatter) -> fmt::Result {
+        f.write_str("anything")
+    }
+    fn visit_bool<E>(self, _: bool) -> Result<Self::Value, E> { Ok(DynSkip) }
+    fn visit_i64<E>(self, _: i64) -> Result<Self::Value, E> { Ok(DynSkip) }
+    fn visit_i128<E>(self, _: i128) -> Result<Self::Value, E> { Ok(DynSkip) }
+    fn visit_u64<E>(self, _: u64) -> Result<Self::Value, E> { Ok(DynSkip) }
+    fn visit_u128<E>(self, _: u128) -> Result<Self::Value, E> { Ok(DynSkip) }
+    fn visit_f32<E>(self, _: f32) -> Result<Self::Value, E> { Ok(DynSkip) }
+    fn visit_f64<E>(self, _: f64) -> Result<Self::Value, E> { Ok(DynSkip) }
+    fn visit_char<E>(self, _: char) -> Result<Self::Value, E> { Ok(DynSkip) }
+    fn visit_str<E>(self, _: &str) -> Result<Self::Value, E> { Ok(DynSkip) }
+    fn visit_bytes<E>(self, _: &[u8]) -> Result<Self::Value, E> { Ok(DynSkip) }
+    fn visit_none<E>(self) -> Result<Self::Value, E> { Ok(DynSkip) }
+    fn visit_unit<E>(self) -> Result<Self::Value, E> { Ok(DynSkip) }
+    fn visit_some<D: Deserializer<'de>>(self, d: D) -> Result<Self::Value, D::Error> {
+        DynSkip::<PAR>::deserialize(d)
+    }
+    fn visit_newtype_struct<D: Deserializer<'de>>(self, d: D) -> Result<Self::Value, D::Error> {
+        DynSkip::<PAR>::deserialize(d)
+    }
+    fn visit_seq<A: SeqAccess<'de>>(self, mut a: A) -> Result<Self::Value, A::Error> {
+        let mut i = 0usize;
+        loop {
+            let more = if i % 2 == PAR {
+                a.next_element::<serde::de::IgnoredAny>()?.is_some()
+            } else {
+                a.next_element::<DynSkip<PAR>>()?.is_some()
+            };
+            if !more {
+                return Ok(DynSkip);
+            }
+            i += 1;
+        }
+    }
+    fn visit_map<A: MapAccess<'de>>(self, mut a: A) -> Result<Self::Value, A::Error> {
+        let mut i = 0usize;
+        while a.next_key::<Dyn>()?.is_some() {
+            if i % 2 == PAR {
+                a.next_value::<serde::de::IgnoredAny>()?;
+            } else {
+                a.next_value::<DynSkip<PAR>>()?;
+            }
+            i += 1;
+        }
+        Ok(DynSkip)
+    }
+    fn visit_enum<A: EnumAccess<'de>>(self, a: A) -> Result<Self::Value, A::Error> {
+        let (_name, va) = a.variant_seed(IdentSeed)?;
+        va.unit_variant()?;
+        Ok(DynSkip)
+    }
+}
+
+impl<'de, const PAR: usize> Deserialize<'de> for DynSkip<PAR> {
+    fn deserialize<D: Deserializer<'de>>(d: D) -> Result<Self, D::Error> {
+        d.deserialize_any(SkipVisitor::<PAR>)
+    }
+}
